@@ -83,7 +83,13 @@ class Hist:
         """projective rows (x0, x); ideal ones are EXACTLY null integer vectors (the where= branch of normalize), never the half-space point at infinity"""
         n, g = self.n, self.g
         if not ideal:
-            return np.concatenate([np.ones(tuple(shape) + (1,)), O.klein(g, shape, n)], axis=-1)
+            out = np.concatenate([np.ones(tuple(shape) + (1,)), O.klein(g, shape, n)], axis=-1)
+            if g.random() < 0.3 and out.size:
+                # G8: an exact special position among ordinary ones: one point exactly at the origin of the ball, stored as (1, 0, ..., 0)
+                flat = out.reshape(-1, n + 1)
+                flat[int(g.integers(0, len(flat))), 1:] = 0.0
+                out = flat.reshape(out.shape)
+            return out
         cnt = int(np.prod(shape)) if len(shape) else 1
         rows = np.zeros((cnt, n + 1))
         for r in range(cnt):
@@ -97,6 +103,37 @@ class Hist:
                 if rows[r, 1] == rows[r, 0]:
                     rows[r, 1] = -rows[r, 1]
         return rows.reshape(tuple(shape) + (n + 1,))
+
+    @staticmethod
+    def lightlike_mask(x1, x2):
+        """per unit: x1 - x2 is (numerically) lightlike or zero. The library's quadratic for the ideal endpoints divides by <x1-x2, x1-x2>, so for such
+        REPRESENTATIVES (e.g. (2,0,0) and (1,0,-1); also reached when a query normalises a stored row in place) a recomputation gives NaN although
+        the segment is a perfectly good one: known representation-dependent limitation (finding "segment a = 0"), outside this property; such
+        units are neither generated nor compared"""
+        d = np.real(np.asarray(x1, dtype=complex) - np.asarray(x2, dtype=complex))
+        q = -d[..., 0] ** 2 + np.sum(d[..., 1:] ** 2, axis=-1)
+        return np.abs(q) <= 1e-9 * np.sum(d ** 2, axis=-1)
+
+    @classmethod
+    def lightlike_difference(cls, x1, x2):
+        return bool(np.any(cls.lightlike_mask(x1, x2)))
+
+    def degenerate_units(self, obj):
+        """mask over the units (segments) / edges (polygons) of obj whose stored endpoint representatives have a lightlike difference; None if there are none"""
+        proj = np.asarray(obj.proj_data)
+        if np.iscomplexobj(proj) and not np.any(np.imag(proj) != 0):
+            proj = np.real(proj)               # real data stored with a complex dtype (astype)
+        if self.kind == "segment" and not np.iscomplexobj(proj):
+            m = self.lightlike_mask(proj[..., 0, :], proj[..., 1, :])
+        elif self.kind == "polygon" and not np.iscomplexobj(proj):
+            m = self.lightlike_mask(proj, np.roll(proj, -1, axis=-2))
+            aux = None if obj.aux_data is None else np.asarray(obj.aux_data)
+            if aux is not None and aux.shape[:-2] == m.shape and not np.any(np.imag(aux) != 0):
+                # the stored edges keep the representatives they were built from (projectively the same, which is all the property asks)
+                m = m | self.lightlike_mask(aux[..., 0, :], aux[..., 1, :])
+        else:
+            return None
+        return m if np.any(m) else None
 
     def inexactly_null(self, obj):
         """some stored row is null up to rounding but not exactly (eigenvector output): one in-place normalisation multiplies it by ~1e8,
@@ -133,8 +170,35 @@ class Hist:
                 dist = np.linalg.norm(kk[..., :, None, :] - kk[..., None, :, :], axis=-1) + 10 * np.identity(self.nv)
                 if dist.min() > 0.1:                                        # vertices pairwise distinct (no degenerate edge)
                     break
-            raw = self.supply("polygon_proj", self.rescale(raw))
+            for _ in range(20):
+                cand = self.rescale(raw)
+                if not self.lightlike_difference(cand, np.roll(cand, -1, axis=-2)):
+                    break
+            raw = self.supply("polygon_proj", cand)
             return H.Polygon(raw)
+        if kind == "segment" and len(shape) >= 1 and shape[-1] >= 2 and g.random() < 0.15:
+            # G18: the history starts from a helper object another object handed out (the edges of a polygon), not from a user-built one
+            k = shape[-1]
+            while True:
+                v = self.pts(shape)
+                kk = v[..., 1:] / v[..., :1]
+                dist = np.linalg.norm(kk[..., :, None, :] - kk[..., None, :, :], axis=-1) + 10 * np.identity(k)
+                if dist.min() > 0.15:
+                    break
+            for _ in range(20):
+                cand = self.rescale(v)
+                if not self.lightlike_difference(cand, np.roll(cand, -1, axis=-2)):
+                    break
+            raw = self.supply("helper_polygon_proj", cand)
+            return H.Polygon(raw).get_edges()
+        if kind == "tangent" and g.random() < 0.15:
+            # G18: a tangent vector handed out by a point query
+            while True:
+                a, b = self.pts(shape), self.pts(shape)
+                if np.min(np.linalg.norm(a[..., 1:] - b[..., 1:], axis=-1)) > 0.15:
+                    break
+            a, b = self.supply("helper_from", a), self.supply("helper_to", b)
+            return H.Point(a).unit_tangent_towards(H.Point(b))
         if kind == "segment":
             if style < 0.3:
                 while True:
@@ -162,7 +226,11 @@ class Hist:
                 ka, kb = ends[0][..., 1:] / ends[0][..., :1], ends[1][..., 1:] / ends[1][..., :1]
                 if np.min(np.linalg.norm(ka - kb, axis=-1)) > 0.15:
                     break
-            raw = self.supply("seg_proj", self.rescale(np.stack(ends, axis=-2)))
+            for _ in range(20):
+                cand = self.rescale(np.stack(ends, axis=-2))
+                if not self.lightlike_difference(cand[..., 0, :], cand[..., 1, :]):
+                    break
+            raw = self.supply("seg_proj", cand)
             return H.Segment(raw)
         if style < 0.4:
             k = self.supply("tan_point", O.klein(g, shape, n))
@@ -257,6 +325,19 @@ class Hist:
         if tuple(aux.shape[:len(obj.shape)]) != tuple(obj.shape):
             return "aux shape"
         tol = max(self.tol, 2e-3 if proj.dtype == np.float32 or aux.dtype == np.float32 else 0)
+        deg = self.degenerate_units(obj)
+        if deg is not None and self.kind == "segment":
+            # units whose stored representatives have a lightlike difference are left out (see lightlike_mask); the others are compared as usual
+            keep = ~deg
+            if not np.any(keep):
+                return None
+            with np.errstate(all="ignore"):
+                ref = self.reference_aux(proj[keep])
+            if not O.aux_proj_eq("segment", aux[keep], np.asarray(fr.aux_data)[keep], tol):
+                return "aux != fresh recomputation"
+            if not O.aux_proj_eq("segment", aux[keep], ref, max(tol, 1e-5)):
+                return "aux != reference derived data"
+            return None
         if not O.aux_proj_eq(self.kind, aux, fr.aux_data, tol):
             return "aux != fresh recomputation"
         ref = self.reference_aux(proj)
@@ -274,9 +355,11 @@ class Hist:
                     if not O.rows_proj_eq(obj.edges, ref, max(tol, 1e-5)) or not O.rows_proj_eq(obj.vertices, proj, 1e-12):
                         return "edges/vertices properties"
                     if self.kind == "polygon" and not np.iscomplexobj(proj):
-                        ie = obj.get_edges().ideal_endpoint_coords("projective")
-                        ir = type(obj.get_edges())(np.array(ref)).ideal_endpoint_coords("projective")
-                        if not O.aux_proj_eq("segment", ie, ir, 1e-5):
+                        ie = np.asarray(obj.get_edges().ideal_endpoint_coords("projective"))
+                        ir = np.asarray(type(obj.get_edges())(np.array(ref)).ideal_endpoint_coords("projective"))
+                        if deg is not None:
+                            ie, ir = ie[~deg], ir[~deg]            # edges with a lightlike difference of representatives: see lightlike_mask
+                        if ie.size and not O.aux_proj_eq("segment", ie, ir, 1e-5):
                             return "get_edges() ideal endpoints != those of the reference edges"
                 elif self.kind == "segment" and not np.iscomplexobj(proj):
                     if not O.aux_proj_eq("segment", obj.ideal_endpoint_coords("projective"), ref, 1e-5):
@@ -305,6 +388,8 @@ class Hist:
         for j, o in enumerate(pick):
             if np.issubdtype(np.asarray(o.proj_data).dtype, np.integer) and self.kind == "tangent":
                 continue
+            if self.degenerate_units(o) is not None:
+                continue            # a fresh object cannot recompute these units (see lightlike_mask)
             why = O.fresh_diff(self.kind, o, self.n, max(self.tol, 1e-6), mutate=(step % 2 == 0))
             if why:
                 self.bad.append({"what": "differs_from_fresh_object", "why": why, "after": opname, "step": step, "bystander": o is self.bystander,
@@ -472,6 +557,12 @@ class Hist:
             return False
         if self.kind == "tangent" and new.ndim >= 2 and new.shape[-2] == 2:
             return O.rows_proj_eq(new[..., 0, :], old[..., 0, :], tol) and rows_pos_eq(new[..., 1, :], old[..., 1, :], tol)
+        undefined = np.any(np.isnan(old), axis=-1) & np.any(np.isnan(new), axis=-1)
+        if np.any(undefined):
+            # rows that were not defined before and are not defined after (derived data the library could not compute: see lightlike_mask) did not move
+            new, old = new[~undefined], old[~undefined]
+            if new.size == 0:
+                return True
         return O.rows_proj_eq(new, old, tol)
 
     def unmoved(self, snap, q, step):
@@ -603,8 +694,10 @@ class Hist:
                 else:
                     raise ValueError(q)
             except Exception as e:
-                self.bad.append({"what": "query_raised", "query": q, "step": step, "exc": type(e).__name__, "msg": str(e)[:120]})
-                return False
+                if self.degenerate_units(X) is None:
+                    self.bad.append({"what": "query_raised", "query": q, "step": step, "exc": type(e).__name__, "msg": str(e)[:120]})
+                    return False
+                # the queried object has units whose derived data cannot be recomputed (NaN: see lightlike_mask): a refusal is not held against it
         return self.unmoved(snap, q, step) and self.check_all(step, "query:" + q)
 
 
@@ -629,12 +722,13 @@ def run_hist(inp):
 def gen_hist(rng, n):
     exhaustive = n >= 20000
     if exhaustive:
-        # thorough: EVERY history of depth <= 4 over the seven operations that rewrite or re-index data (2800 per class and shape), each operation
-        # followed by one query; the two value-preserving operations (copy, astype) are inserted at random positions; 3 classes x 3 shapes
+        # thorough: EVERY history of depth <= 4 (2800) over the seven operations that rewrite or re-index data for each class on one composite shape
+        # (a different one per class) and of depth <= 3 (399) on the two other shapes, each operation followed by one query; the two
+        # value-preserving operations (copy, astype) are inserted at random positions  (~11000 histories: the tier stays under ten minutes)
         core = [o for o in OPS if o not in ("copy", "astype")]
-        for kind in AUXK[:3]:
-            for shape in HSHAPES:
-                for depth in range(1, 5):
+        for ki, kind in enumerate(AUXK[:3]):
+            for si, shape in enumerate(HSHAPES):
+                for depth in range(1, 5 if si == ki % len(HSHAPES) else 4):
                     for ops in itertools.product(core, repeat=depth):
                         seq = []
                         for o in ops:
@@ -642,7 +736,7 @@ def gen_hist(rng, n):
                                 seq.append(rng.choice(["copy", "astype"]))
                             seq += [o, "q:" + rng.choice(QUERIES[kind])]
                         yield {"op": "history", "kind": kind, "shape": shape, "n": 2, "seed": rng.randrange(10 ** 9), "ops": seq}
-        for c in range(2400):          # projective polygons with complex / float32 / float64 data: random histories
+        for c in range(1200):          # projective polygons with complex / float32 / float64 data: random histories
             seq = []
             for _ in range(rng.randint(1, 6)):
                 seq += [rng.choice(OPS), "q:" + rng.choice(QUERIES["ppolygon"])]
